@@ -50,6 +50,18 @@ class LocalHashFileDB(HashFileDB):
         # being ~5.5 times faster.
         return f"{self.path}{os.sep}{oid[0:2]}{os.sep}{oid[2:]}"
 
+    def add(self, path, fs, oid, **kwargs):
+        # NOTE: an object that exists but is not protected may be left over
+        # from an interrupted add (e.g. an empty file created by a link
+        # attempt), so make sure that it is valid (check() removes it if it is
+        # not) instead of skipping, protecting and caching it as is.
+        for _oid in [oid] if isinstance(oid, str) else oid:
+            try:
+                self.check(_oid)
+            except (FileNotFoundError, ObjectFormatError):
+                pass
+        return super().add(path, fs, oid, **kwargs)
+
     def oids_exist(self, oids, jobs=None, progress=noop):
         ret = []
         progress = partial(progress, "querying", len(oids))
